@@ -294,6 +294,21 @@ def body(H, case):
                 if len(g) == 2:
                     for i in range(2):
                         same_value(H, f"{name}: value at array point {i}", g[i], w[i])
+        # a second, third, fourth evaluation of the same tree (caches of time-dependent leaves are warm):
+        # the value depends on every coordinate and on the time
+        if evals:
+            Z0 = evals[0][1][2]
+            y2, x2, t2 = H.real("y_other", lo=-2.0, hi=2.0), H.real("x_other", lo=-2.0, hi=2.0), H.real("t_other", lo=0.0, hi=5.0)
+            one = (lambda v: None if v is None else (H.array([v]) if H.mode == "sym" else np.array([v])))
+            for label, (X, Y, T) in (("same x, other y", (x, y2, t)), ("other x, same y", (x2, y2, t)), ("same point, other time", (x2, y2, t2)), ("the first point again", (x, y, t))):
+                kw2 = dict(t=T) if timedep(spec) else {}
+                try:
+                    got = P(X, Y, Z0, **kw2)
+                except Exception as e:
+                    H.prove(f"{name}: evaluates again at {label} ({type(e).__name__}: {e})", False)
+                    continue
+                want = oracle(spec, one(X), one(Y), one(Z0), T)
+                same_value(H, f"{name}: re-evaluated at {label} = op(values of the operands there)", got if np.ndim(K.elems(got) if hasattr(got, "data") else got) == 0 else K.at(got, 0), K.at(want, 0) if hasattr(want, "__len__") else want)
         # structural equality
         H.prove(f"{name}: equals an identically built expression", build(spec) == P)
         other = ("op", "+" if spec[1] != "+" else "*", spec[2], spec[3])
